@@ -147,10 +147,60 @@ class GenTr:
                 if r[0] == "c" and r[1].denominator == 1:
                     return [("set", i, ("*", ("v", i), int(r[1])))]
             raise Untranslatable("augmented assignment operator %s" % type(s.op).__name__)
+        if isinstance(s, ast.For):
+            # `for x in <tuple of constants>: <straight-line body>` = the body once per element, x bound to it (finite unrolling)
+            if s.orelse or not isinstance(s.target, ast.Name):
+                raise Untranslatable("for: else-branch / target")
+            elems = self.tuple_of(s.iter)
+            if any(e[0] != "c" for e in elems):
+                raise Untranslatable("for over non-constant elements")
+            for b in self._body(s.body):
+                if isinstance(b, (ast.For, ast.While)):
+                    raise Untranslatable("nested loop")
+            out = []
+            for e in elems:
+                out.append(("set", self._local(s.target.id, bind=True), e))
+                for b in self._body(s.body):
+                    out.extend(self.stmt(b))
+            return out
         raise Untranslatable("statement %s" % type(s).__name__)
 
+    def _inline_tail(self, stmts, depth=0):
+        """a trailing `yield from g(<args>)`, g a generator function of the same module: g's body with its parameters bound to the
+        arguments (evaluated in the caller), g's own names kept apart from the caller's by a prefix.  Delegating with `yield from`
+        as the LAST statement yields exactly what g yields and then ends when g ends."""
+        if not stmts:
+            return stmts
+        last = stmts[-1]
+        if not (isinstance(last, ast.Expr) and isinstance(last.value, ast.YieldFrom) and isinstance(last.value.value, ast.Call)):
+            return stmts
+        call = last.value.value
+        if not isinstance(call.func, ast.Name) or self._local(call.func.id) is not None or call.keywords:
+            raise Untranslatable("yield from call of %s" % ast.dump(call.func)[:60])
+        g = getattr(self.mod, call.func.id, None)
+        if depth > 3 or g is None or not inspect.isgeneratorfunction(g) or g.__module__ != self.mod.__name__:
+            raise Untranslatable("yield from %s(...): not a generator function of this module" % call.func.id)
+        gn = ast.parse(textwrap.dedent(inspect.getsource(g))).body[0]
+        a = gn.args
+        if not isinstance(gn, ast.FunctionDef) or a.posonlyargs or a.kwonlyargs or a.vararg or a.kwarg or a.defaults \
+                or gn.decorator_list or len(a.args) != len(call.args) or any(isinstance(x, ast.Starred) for x in call.args):
+            raise Untranslatable("yield from %s(...): signature" % call.func.id)
+        params = [x.arg for x in a.args]
+        own = set(params)
+        for n in ast.walk(gn):
+            if isinstance(n, ast.Name) and isinstance(n.ctx, ast.Store):
+                own.add(n.id)
+            if isinstance(n, (ast.Global, ast.Nonlocal, ast.Lambda, ast.FunctionDef)) and n is not gn:
+                raise Untranslatable("yield from %s(...): scope statement" % call.func.id)
+        pref = "%s$%d$" % (call.func.id, depth)
+        for n in ast.walk(gn):
+            if isinstance(n, ast.Name) and n.id in own:
+                n.id = pref + n.id
+        binds = [ast.Assign(targets=[ast.Name(id=pref + p_, ctx=ast.Store())], value=v) for p_, v in zip(params, call.args)]
+        return self._inline_tail(stmts[:-1] + binds + self._body(gn.body), depth + 1)
+
     def translate(self):
-        stmts = self._body(self.fn.body)
+        stmts = self._inline_tail(self._body(self.fn.body))
         loop = None
         if stmts and isinstance(stmts[-1], ast.While):
             loop = stmts.pop()
@@ -177,9 +227,53 @@ class GenTr:
                 yielded.append(ev(x[1]))
             else:
                 env[x[1]] = ev(x[2])
-        nloc = len(self.names)
-        if loop is not None and any(i not in env for i in range(nloc)):
-            raise Untranslatable("a local of the loop is not bound before it")
+        if loop is not None:
+            def used(e, acc):
+                if e[0] == "v":
+                    acc.append(e[1])
+                elif e[0] in "+*":
+                    used(e[1], acc)
+                    if e[0] == "+":
+                        used(e[2], acc)
+                return acc
+            written = {x[1] for x in body if x[0] == "set"}
+
+            def subst(e):          # a local the loop never assigns keeps its value at loop entry: a constant
+                if e[0] == "v" and e[1] not in written:
+                    if e[1] not in env:
+                        raise Untranslatable("local read before assignment")
+                    return ("c", env[e[1]])
+                if e[0] == "+":
+                    return ("+", subst(e[1]), subst(e[2]))
+                if e[0] == "*":
+                    return ("*", subst(e[1]), e[2])
+                return e
+            body = [(x[0], subst(x[1])) if x[0] == "yield" else (x[0], x[1], subst(x[2])) for x in body]
+            # only the locals the loop mentions are its state; renumbered in order of first mention
+            order = []
+            for x in body:
+                for i in ([x[1]] if x[0] == "set" else []) + used(x[-1], []):
+                    if i not in order:
+                        order.append(i)
+            # (a `set` evaluates its right-hand side first, but numbering by statement is canonical enough and deterministic)
+            ren = {i: k for k, i in enumerate(order)}
+
+            def rn(e):
+                if e[0] == "v":
+                    return ("v", ren[e[1]])
+                if e[0] == "+":
+                    return ("+", rn(e[1]), rn(e[2]))
+                if e[0] == "*":
+                    return ("*", rn(e[1]), e[2])
+                return e
+            body = [(x[0], rn(x[1])) if x[0] == "yield" else (x[0], ren[x[1]], rn(x[2])) for x in body]
+            if any(i not in env for i in order):
+                raise Untranslatable("a local of the loop is not bound before it")
+            env = {ren[i]: env[i] for i in order}
+            nloc = len(order)
+        else:
+            nloc = 0
+            env = {}
         den = 1
         for f in self.consts + yielded + list(env.values()):
             den = lcm(den, f.denominator)
